@@ -337,6 +337,7 @@ func runC06(r *mc.Report, e *Env) {
 		c06Product(r)
 		c06Callers(r)
 		c06Boundary.judge(r)
+		c06Advertised(r)
 	}
 	for t := 0; t < c06bTasks(); t++ {
 		if e.Of <= 1 || e.Shard == nb+1+t {
@@ -357,6 +358,11 @@ func replayC06(r *mc.Report, e *Env, raw json.RawMessage) {
 	var c c06Case
 	if err := json.Unmarshal(raw, &c); err != nil {
 		panic(err)
+	}
+	var ac c06AdvCase
+	if err := json.Unmarshal(raw, &ac); err == nil && ac.Adv != "" {
+		c06Advertised(r) // the whole part again (seconds): the report lists what reproduces
+		return
 	}
 	if c.Via == "Gossip" || strings.HasPrefix(c.Via, "OfferFilter") || c.Node == "boundary" {
 		c06Product(r) // the whole lattice again (a second): the report lists what reproduces
